@@ -29,7 +29,7 @@ def run_one(d):
         cp = subprocess.run(["patch", "-p1", "-s", "-d", dst, "-i", os.path.join(d, "patch.diff")], capture_output=True, text=True)
         if cp.returncode:
             return os.path.basename(d), prop, "PATCH-FAILED", cp.stdout[-200:]
-        env = dict(os.environ, VERIF_REPO=dst, VERIF_SHRINK_S="5", VERIF_WORKERS=os.environ.get("MUT_WORKERS", "4"),
+        env = dict(os.environ, VERIF_REPO=dst, VERIF_SHRINK_S="5", VERIF_BUDGET_S=os.environ.get("VERIF_BUDGET_S", "3000"), VERIF_WORKERS=os.environ.get("MUT_WORKERS", "4"),
                    VERIF_REPLAY_DIR=os.path.join(scratch, "replays"))
         cp = subprocess.run([sys.executable, os.path.join(V, "check.py"), prop, "--tier", "quick", "--no-evidence"],
                             capture_output=True, text=True, env=env, timeout=3600, cwd=scratch)
